@@ -34,8 +34,23 @@ for d in sorted(glob.glob(os.path.join(V, "seeded", "*"))):
     det = m.get("detected_by") or []
     if det:
         caught += 1
+    how = []
+    for p_, r in (m.get("checks") or {}).items():
+        obs = []
+        for u in r.get("undischarged") or []:
+            u = u.replace("undischarged:", "").strip()
+            name = u.split(":")[0].split(".")[-1]
+            if name and name not in obs and not name.startswith("<"):
+                obs.append(name)
+        if obs:
+            how.append("%s obligations: %s" % (p_, ", ".join("`%s`" % o for o in obs[:4]) + (" …" if len(obs) > 4 else "")))
+        for d in (r.get("disagreements") or [])[:1]:
+            d = d.replace("disagreement", "").strip()
+            eng_ = d[d.find("[") + 1:d.find("]")] if "[" in d else ""
+            exp = d[d.find("expected:"):][:150].replace("|", "/") if "expected:" in d else d[:150].replace("|", "/")
+            how.append("engine `%s`: %s" % (eng_, exp))
     rows.append("| %s | %s | %s | %s | %s | %s |" % (m["id"], m["property"], m.get("summary", ""), "yes" if m.get("confirmed") else "NO",
-                                                 ", ".join(det) if det else "**missed**", m.get("how", "")))
+                                                 ", ".join(det) if det else "**missed**", m.get("how") or "; ".join(how)))
 SEEDED = "\n".join(rows) + "\n\n%d of %d seeded changes are reported by at least one check.\n" % (caught, n)
 extra = os.path.join(V, "seeded", "NOTES.md")
 if os.path.exists(extra):
